@@ -157,7 +157,35 @@ def all_or_nothing(sc, out, case, f):
             F.add(name)
     built = set(f['gen_returned']) | set(n for n in f['borrowed_from'])
     built -= set(n for n, s in res.items() if s == 'untouched')
-    info = {'F': sorted(F), 'built': sorted(built)}
+    # a file whose first module is fine but whose later module is broken: a parse/semantic failure happened in the
+    # closure although every *named* module may be usable - the gate must still close
+    tails = set()
+    canon_of = {}
+    last_read = None
+    for e in out.log:
+        if e[0] == 'read':
+            last_read = (e[1], e[2])
+        elif e[0] == 'parse' and last_read is not None:
+            ent = sc['sources'][last_read[0]].get(last_read[1])
+            if isinstance(ent, list) and len(ent) > 4 and ent[4] != 'good' and ent[2] == 'good' and ent[3]:
+                tails.add(last_read[1])
+                canon_of[last_read[1]] = ent[1]
+            elif e[1] and (ent == 'good' or (isinstance(ent, list) and ent[2] == 'good')):
+                for t in list(tails):
+                    if canon_of[t] in e[1] or t in e[1]:
+                        tails.discard(t)     # obtained again from a healthy file: the earlier failure is void
+    info = {'F': sorted(F) + ['file:' + t for t in sorted(tails)], 'built': sorted(built)}
+    if tails and not ignore:
+        if f['put']:
+            raise Violation('written-despite-failure', 'a later module of file(s) %r failed, yet written %r' % (
+                sorted(tails), sorted(f['put'])), case)
+        for name, status in res.items():
+            if status in ('compiled', 'borrowed'):
+                raise Violation('reported-built-despite-failure', '%s is %s although file(s) %r held a failing module' % (
+                    name, status, sorted(tails)), case)
+        return info
+    if tails:
+        return info
     if F and not ignore:
         if f['put']:
             raise Violation('written-despite-failure', 'failed/missing %r, yet written %r' % (sorted(F), sorted(f['put'])), case)
